@@ -25,21 +25,36 @@ Theorem C03_record_frame : forall (fr : frm) (id : N) (body rest : list N),
   next_record (frame fr id body ++ rest) = Ok (id, body, rest).
 Proof. exact next_record_frame. Qed.
 
-(* ---- (2) records the cell reader does not interpret are transparent ---- *)
+(* ---- (2) records the cell reader does not interpret are transparent ----
+   [interpreted] = BrtRowHdr, the cell records 1..11, the short cell records 12..18,
+   BrtEndSheetData: the ids the loop of next_cell acts on.  Any other record, between any two
+   records (short cell records included) and in any reader state (row, next_col), changes
+   nothing. *)
 Theorem C03_ignorable_transparent :
   forall (fdiv100 : N -> N) (en : env) (pre : list rawrec) (fr : frm) (id : N)
-         (body rest : list N) (row : N),
+         (body rest : list N) (row ncol : N),
   forallb wf_raw pre = true -> wf_frame fr id body = true -> interpreted id = false ->
-  cells_from fdiv100 en (flat_map enc_raw pre ++ frame fr id body ++ rest) row =
-  cells_from fdiv100 en (flat_map enc_raw pre ++ rest) row.
+  cells_from fdiv100 en (flat_map enc_raw pre ++ frame fr id body ++ rest) row ncol =
+  cells_from fdiv100 en (flat_map enc_raw pre ++ rest) row ncol.
 Proof. exact ignorable_transparent. Qed.
 
-(* the same at the level of layouts: the logical sheet does not see the inserted item *)
+(* the same at the level of layouts: the logical sheet does not see the inserted item — in
+   particular a short record after it still stands right of the cell before it — and the layout
+   stays legal *)
 Theorem C03_ignorable_item_transparent :
-  forall (fdiv100 : N -> N) (en : env) (a b : list (frm * item)) (row : N) (fr : frm) (id : N)
-         (body : list N),
-  denote fdiv100 en row (a ++ (fr, IOther id body) :: b) = denote fdiv100 en row (a ++ b).
-Proof. exact denote_insert. Qed.
+  forall (fdiv100 : N -> N) (en : env) (a b : list (frm * item)) (row : N) (prev : option N)
+         (fr : frm) (id : N) (body : list N),
+  denote fdiv100 en row prev (a ++ (fr, IOther id body) :: b) = denote fdiv100 en row prev (a ++ b) /\
+  shorts_placed prev (a ++ (fr, IOther id body) :: b) = shorts_placed prev (a ++ b).
+Proof. exact (fun fd en a b row prev fr id body =>
+                conj (denote_insert fd en a b row prev fr id body)
+                     (shorts_placed_insert a b prev fr id body)). Qed.
+
+(* the records a layout may carry as IOther are defined from the format (everything the
+   CELLTABLE grammar gives no meaning of its own), and each of them is one the reader ignores *)
+Theorem C03_other_records_ignored : forall id : N,
+  cell_table_id id = false -> interpreted id = false.
+Proof. exact cell_table_id_interpreted. Qed.
 
 (* ---- (3) the table of interpreted record kinds ---- *)
 Theorem C03_cell_table :
@@ -47,7 +62,7 @@ Theorem C03_cell_table :
   let fmt := nthN (e_formats en) style in
   let hd := cell_head col style fl in
   let step := record_step fdiv100 en in
-  (forall body, step 1 body = Ok CSkip) /\
+  (forall body, step 1 body = Ok (if 4 <=? lenN body then CBlank (rd 4 0 body) else CSkip)) /\
   (forall f, legal_form f = true ->
      step 2 (hd ++ le_bytes 4 (rk_encode f) ++ tail) =
        Ok (CCell (RVal (rk_wrap (xrk_form_value fdiv100 f) fmt (e_1904 en))))) /\
@@ -78,9 +93,25 @@ Theorem C03_cell_table_values :
   record_step fdiv100 en (cval_id v) buf =
     match cval_data fdiv100 en style v with
     | Some d => Ok (CCell d)
-    | None => Ok CSkip
+    | None => Ok (CBlank col)
     end.
 Proof. exact cell_table. Qed.
+
+(* the short cell records BrtShortBlank 0x0C, BrtShortRk 0x0D, BrtShortError 0x0E, BrtShortBool
+   0x0F, BrtShortReal 0x10, BrtShortSt 0x11, BrtShortIsst 0x12 (body: 24-bit iStyleRef, one byte
+   of flags, the value — no column): read as the long record of the same kind standing at
+   next_col, the column right of the previous cell record of the row *)
+Theorem C03_short_cell_table :
+  forall (fdiv100 : N -> N) (en : env) (ncol style fl : N) (v : cval) (tail : list N),
+  ncol < 4294967296 -> style < 16777216 -> wf_cval en v = true -> shortable v = true ->
+  let tb := unshort (cval_id v + 11) (short_head style fl ++ cval_bytes v ++ tail) ncol in
+  12 <= cval_id v + 11 <= 18 /\ rd 4 0 (snd tb) = ncol /\
+  record_step fdiv100 en (fst tb) (snd tb) =
+    match cval_data fdiv100 en style v with
+    | Some d => Ok (CCell d)
+    | None => Ok (CBlank ncol)
+    end.
+Proof. exact short_cell_table. Qed.
 
 Theorem C03_err_codes_one_to_one :
   (forall e, parse_cerr (err_code e) = Ok e) /\
@@ -117,8 +148,8 @@ Proof.
 Qed.
 
 (* the fuel of the model (length of the part + 1) always suffices *)
-Theorem C03_fuel_suffices : forall (fdiv100 : N -> N) (en : env) (f : nat) (s : list N) (row : N),
-  (length s < f)%nat -> cells_loop fdiv100 en f s row <> OutOfFuel.
+Theorem C03_fuel_suffices : forall (fdiv100 : N -> N) (en : env) (f : nat) (s : list N) (row ncol : N),
+  (length s < f)%nat -> cells_loop fdiv100 en f s row ncol <> OutOfFuel.
 Proof. exact cells_loop_no_fuel_out. Qed.
 
 (* ---- (4) the main theorem ---- *)
@@ -182,9 +213,10 @@ Theorem C03_no_panic_reader : forall (fdiv100 : N -> N) (en : env) (s : list N),
   (sheet_cells fdiv100 en s <> Panic /\ sheet_cells fdiv100 en s <> OutOfFuel).
 Proof. exact no_panic_reader. Qed.
 
-Theorem C03_no_panic_cell_loop : forall (fdiv100 : N -> N) (en : env) (f : nat) (s : list N) (row : N),
+Theorem C03_no_panic_cell_loop :
+  forall (fdiv100 : N -> N) (en : env) (f : nat) (s : list N) (row ncol : N),
   (length s < f)%nat ->
-  cells_loop fdiv100 en f s row <> Panic /\ cells_loop fdiv100 en f s row <> OutOfFuel.
+  cells_loop fdiv100 en f s row ncol <> Panic /\ cells_loop fdiv100 en f s row ncol <> OutOfFuel.
 Proof. exact cells_loop_clean. Qed.
 
 Theorem C03_no_panic_range_ref :
@@ -215,11 +247,32 @@ Theorem C03_no_panic_header :
 Proof. exact no_panic_header. Qed.
 
 (* ---- non-vacuity ---- *)
+(* the example layout carries short records of all seven kinds: a run after a cell, across a
+   record outside the cell grammar, after a blank cell (which counts), at the last column *)
 Example C03_main_nonvacuous : forall fdiv100 : N -> N,
   legal fdiv100 example_env example_layout (logical fdiv100 example_env example_layout) /\
   l_dim example_layout <> None /\
-  length (logical fdiv100 example_env example_layout) = 11%nat.
+  map fst (logical fdiv100 example_env example_layout) =
+    [(2, 3); (2, 4); (2, 5); (2, 7); (2, 8); (2, 9); (2, 10); (2, 21);
+     (7, 1); (7, 2); (7, 3); (7, 9); (7, 10); (7, 11); (7, 12); (7, 13); (7, 16382); (7, 16383)].
 Proof. exact example_legal. Qed.
+
+Example C03_short_cells_nonvacuous : forall fdiv100 : N -> N,
+  nth_error (logical fdiv100 example_env example_layout) 1 =
+    Some ((2, 4), RVal (DDateTime 4607182418800017408 false false)) /\
+  nth_error (logical fdiv100 example_env example_layout) 3 = Some ((2, 7), RShared [97; 98]) /\
+  nth_error (logical fdiv100 example_env example_layout) 7 = Some ((2, 21), RVal (DBool false)).
+Proof. exact example_short_cells. Qed.
+
+(* what the domain excludes: a short record with no cell before it in its row, or whose column
+   would be 16384 *)
+Example C03_short_needs_cell_nonvacuous :
+  shorts_placed None [(fr1, IRow 0 []); (fr1, IShort 0 0 (VBool true) [])] = false /\
+  shorts_placed None [(fr1, IRow 0 []); (fr1, ICell 16383 0 0 (VBool true) []);
+                      (fr1, IShort 0 0 (VBool true) [])] = false /\
+  shorts_placed None [(fr1, IRow 0 []); (fr1, ICell 0 0 0 (VBool true) []); (fr1, IRow 1 []);
+                      (fr1, IShort 0 0 (VBool true) [])] = false.
+Proof. exact short_needs_cell. Qed.
 
 Example C03_wsdim_absent_nonvacuous : forall fdiv100 : N -> N,
   legal fdiv100 empty_env nodim_layout [((0, 0), RVal (DBool true))] /\ l_dim nodim_layout = None.
@@ -238,12 +291,15 @@ Proof. repeat split; vm_compute; reflexivity. Qed.
 
 Example C03_frame_nonvacuous :
   wf_frame (mkFrm true 2) 1025 [1; 2; 3] = true /\ interpreted 1025 = false /\
-  interpreted 1 = false /\ wf_raw (fr1, 0, [2; 0; 0; 0]) = true.
+  cell_table_id 1025 = false /\ interpreted 62 = false /\ cell_table_id 62 = true /\
+  interpreted 12 = true /\ interpreted 18 = true /\ interpreted 19 = false /\
+  wf_raw (fr1, 0, [2; 0; 0; 0]) = true.
 Proof. repeat split; vm_compute; reflexivity. Qed.
 
 Example C03_cell_nonvacuous :
   legal_form (RkI (-536870912) true) = true /\ wf_cval example_env (VIsst 1) = true /\
-  wf_cval example_env (VSt [104; 105; 128512]) = true /\ 1114111 < 4294967296.
+  wf_cval example_env (VSt [104; 105; 128512]) = true /\ 1114111 < 4294967296 /\
+  shortable (VIsst 1) = true /\ shortable (VFmlaNum 0) = false.
 Proof. repeat split; vm_compute; reflexivity. Qed.
 
 Check C03_xlsb_sheet_main : forall (fdiv100 : N -> N) (en : env) (L : list cellr) (c : layout),
@@ -251,10 +307,14 @@ Check C03_xlsb_sheet_main : forall (fdiv100 : N -> N) (en : env) (L : list cellr
   worksheet_range_ref fdiv100 en FirstNonEmptyRow (encode_sheet c) = Ok (range_of (RVal DEmpty) L).
 Check C03_ignorable_transparent :
   forall (fdiv100 : N -> N) (en : env) (pre : list rawrec) (fr : frm) (id : N)
-         (body rest : list N) (row : N),
+         (body rest : list N) (row ncol : N),
   forallb wf_raw pre = true -> wf_frame fr id body = true -> interpreted id = false ->
-  cells_from fdiv100 en (flat_map enc_raw pre ++ frame fr id body ++ rest) row =
-  cells_from fdiv100 en (flat_map enc_raw pre ++ rest) row.
+  cells_from fdiv100 en (flat_map enc_raw pre ++ frame fr id body ++ rest) row ncol =
+  cells_from fdiv100 en (flat_map enc_raw pre ++ rest) row ncol.
+Check C03_xlsb_sheet_main_any_order : forall (fdiv100 : N -> N) (en : env) (c : layout),
+  wf_layout en c = true ->
+  worksheet_range_ref fdiv100 en FirstNonEmptyRow (encode_sheet c) =
+    Ok (range_of (RVal DEmpty) (logical fdiv100 en c)).
 Check C03_varint_roundtrip :
   (forall (wide : bool) (id : N) (rest : list N), id < 16384 -> (wide = true \/ id < 128) ->
      read_type (enc_id wide id ++ rest) = Ok (id, rest) /\
@@ -268,6 +328,8 @@ Print Assumptions C03_ignorable_transparent.
 Print Assumptions C03_ignorable_item_transparent.
 Print Assumptions C03_cell_table.
 Print Assumptions C03_cell_table_values.
+Print Assumptions C03_short_cell_table.
+Print Assumptions C03_other_records_ignored.
 Print Assumptions C03_err_codes_one_to_one.
 Print Assumptions C03_rk_roundtrip.
 Print Assumptions C03_rk_all_words.
